@@ -355,7 +355,7 @@ func (vc *VC) keyMeta(key string) keyMeta {
 func (vc *VC) fieldKey(st types.Type, i int) string {
 	s, _ := structOf(st)
 	f := s.Field(i)
-	key := "F:" + shortType(st) + "." + f.Name()
+	key := "F:" + shortType(st) + "." + recFieldName(st, i)
 	if _, ok := vc.keyMetas[key]; !ok {
 		vc.keyMetas[key] = keyMeta{Sort: "(Array Int " + sortOf(f.Type()) + ")"}
 	}
